@@ -148,6 +148,11 @@ theorem numbered_frame1 (A : List String) (st st' : St) (tag : String) (c : Name
       · exact h
     exact stepc_frame A _ _ c hcl hc (hstep hs')
 
+theorem ensure_frame (A : List String) (s : Store) (d : Name) (hcl : closedB (skel s) A = true) (hd : d ∉ A) :
+    Step1 A s (ensure s d) := by
+  have hg := grow A (skel s) (skel (ensure s d)) hcl (skel_ensure_grow A s d hd)
+  exact ⟨fun x hx => val_ensure_of_ne s d x (fun h => hd (h ▸ hx)), hg.1, hg.2⟩
+
 /-- one event that avoids `A` leaves `A` alone -/
 theorem step_frame (A : List String) (st st' : St) (e : Ev) (hcl : closedB (skel st.store) A = true)
     (hav : avoids A st e = true) (h : step st e = .ok st') : Step1 A st.store st'.store := by
@@ -219,6 +224,36 @@ theorem step_frame (A : List String) (st st' : St) (e : Ev) (hcl : closedB (skel
   | appendix c =>
     simp only [step, Except.ok.injEq] at h; subst h
     exact setc_frame A _ c 0 hcl (not_mem_of_all (hav c (by simp [targets])))
+  | «show» fmt c =>
+    simp only [step, showRep] at h
+    cases hr : represent (valD st.store c) fmt with
+    | error e => rw [hr] at h; cases h
+    | ok r =>
+      rw [hr] at h
+      simp only [Except.ok.injEq] at h; subst h
+      exact ensure_frame A _ c hcl (not_mem_of_all (hav c (by simp [targets])))
+  | showThe c =>
+    simp only [step] at h
+    cases hr : evalThe (theFuel st.thes) st.thes st.store ("the" ++ c) with
+    | error e => rw [hr] at h; cases h
+    | ok r =>
+      rw [hr] at h
+      simp only [Except.ok.injEq] at h; subst h
+      exact Step1.refl A _ hcl
+  | renewThe c body =>
+    simp only [step, Except.ok.injEq] at h; subst h
+    exact Step1.refl A _ hcl
+  | setcv n m =>
+    simp only [step, Except.ok.injEq] at h; subst h
+    have h1 := ensure_frame A st.store m hcl (not_mem_of_all (hav m (by simp [targets])))
+    exact h1.trans (setc_frame A _ n _ h1.2.1 (not_mem_of_all (hav n (by simp [targets]))))
+  | addcv n m =>
+    simp only [step, Except.ok.injEq] at h; subst h
+    have h1 := ensure_frame A st.store m hcl (not_mem_of_all (hav m (by simp [targets])))
+    exact h1.trans (addc_frame A _ n _ h1.2.1 (not_mem_of_all (hav n (by simp [targets]))))
+  | initc n v =>
+    simp only [step, Except.ok.injEq] at h; subst h
+    exact setc_frame A _ n _ hcl (not_mem_of_all (hav n (by simp [targets])))
 
 /-- a whole history that avoids `A` leaves `A` alone -/
 theorem history_frame (A : List String) : ∀ (evs : List Ev) (st st' : St),
